@@ -4,6 +4,8 @@ import Dawgs.Proofs.C14Csr
 import Dawgs.Proofs.C14Bfs
 import Dawgs.Proofs.C14Norm
 import Dawgs.Proofs.C14Seg
+import Dawgs.Proofs.C14TravInst
+import Dawgs.Proofs.C14Edges
 set_option linter.unusedSimpArgs false
 set_option linter.unusedVariables false
 namespace Dawgs.C14
